@@ -692,8 +692,13 @@ impl NetworkBehaviour for Behaviour {
                      denies all inbound substreams."
                 );
 
+                let dst_peer_id = inbound_circuit_req.dst();
                 let action = if self.circuits.num_circuits_of_peer(event_source)
                     >= self.config.max_circuits_per_peer
+                    // The destination is part of the circuit as well.
+                    || (dst_peer_id != event_source
+                        && self.circuits.num_circuits_of_peer(dst_peer_id)
+                            >= self.config.max_circuits_per_peer)
                     || self.circuits.len() >= self.config.max_circuits
                     || !self
                         .config
